@@ -160,8 +160,8 @@ impl serde::Serializer for &mut URLEncodedSerializer {
         Ok(())
     }
     fn serialize_char(self, v: char) -> Result<Self::Ok, Self::Error> {
-        self.output.push(v);
-        Ok(())
+        /* a char can be `&`, `=`, `%`, ... : encode it just as a str */
+        self.serialize_str(v.encode_utf8(&mut [0; 4]))
     }
 
     fn serialize_f32(self, v: f32) -> Result<Self::Ok, Self::Error> {
